@@ -26,7 +26,8 @@ import (
 // Stage/Outlinks.v.
 //
 // Input: "hops=<h> maxhops=<m> dc=<0|1> status=<code> redirs=<r> mr=<max-redirect> links=<k1,k2,...>"
-//   link kinds: m = anchor to a host matching the domains-crawl pattern, n = anchor to another host, i = image
+//   link kinds: m = anchor to a host matching the domains-crawl pattern, n = anchor to another host, i = image,
+//   L / M = URL only in the Link response header (other / matching host), t = URL only in the running text
 
 func execHops(input string) Result {
 	kv := parseKV(input)
@@ -42,7 +43,7 @@ func execHops(input string) Result {
 	var b strings.Builder
 	b.WriteString("<!DOCTYPE html><html><head><title>t</title></head><body>\n")
 	var want []string // (url, matches?) in document order, anchors only
-	var kinds []string
+	var kinds, linkHeader []string
 	if kv["links"] != "" {
 		kinds = strings.Split(kv["links"], ",")
 	}
@@ -58,6 +59,18 @@ func execHops(input string) Result {
 			want = append(want, u+"|0")
 		case "i":
 			fmt.Fprintf(&b, "<img src=\"/img%d.png\">\n", i)
+		case "L": // only in the Link response header
+			u := fmt.Sprintf("http://other.example/lh%d", i)
+			linkHeader = append(linkHeader, fmt.Sprintf("<%s>; rel=\"next\"", u))
+			want = append(want, u+"|0")
+		case "M":
+			u := fmt.Sprintf("http://match.example/lh%d", i)
+			linkHeader = append(linkHeader, fmt.Sprintf("<%s>; rel=\"next\"", u))
+			want = append(want, u+"|1")
+		case "t": // only in the running text (the aggressive text/* link extraction)
+			u := fmt.Sprintf("http://other.example/txt%d", i)
+			fmt.Fprintf(&b, "<p>see %s for more</p>\n", u)
+			want = append(want, u+"|0")
 		}
 	}
 	b.WriteString("</body></html>\n")
@@ -70,6 +83,9 @@ func execHops(input string) Result {
 	resp.Header.Set("Content-Type", "text/html; charset=utf-8")
 	if status >= 300 && status < 400 {
 		resp.Header.Set("Location", "http://page.example/moved")
+	}
+	if len(linkHeader) > 0 {
+		resp.Header.Set("Link", strings.Join(linkHeader, ", "))
 	}
 	u.SetResponse(resp)
 	if err := archiver.ProcessBody(u, false, dc, maxhops, c.WARCTempDir); err != nil {
@@ -146,7 +162,7 @@ func genHops(r *Rng, i int, tier string) string {
 	n := r.Intn(7)
 	var ks []string
 	for j := 0; j < n; j++ {
-		ks = append(ks, []string{"m", "n", "n", "i"}[r.Intn(4)])
+		ks = append(ks, []string{"m", "n", "n", "i", "L", "M", "t"}[r.Intn(7)])
 	}
 	mr := r.Intn(4)
 	return fmt.Sprintf("hops=%d maxhops=%d dc=%d status=%d redirs=%d mr=%d links=%s", hops, maxhops, r.Intn(2), status, r.Intn(mr+2), mr, strings.Join(ks, ","))
